@@ -82,9 +82,19 @@ def _worker(job):
     out = {"idx": idx, "profile": profile, "seed": seed}
     try:
         net = make_job_net(rng, idx, profile)
-        opts = pipe_common.sample_config(rng, "mixed" if profile == "c11" else profile)
+        if profile.startswith("sweep:"):
+            import sweep
+
+            opts = sweep.config(rng, profile, idx)
+        else:
+            opts = pipe_common.sample_config(rng, "mixed" if profile == "c11" else profile)
         if rng.random() < 0.1:
             opts.append("--force-symmetric-int-weights")
+        for e in getattr(net, "extra_opts", []):
+            # options a generated case asks for (--force-symmetric-int-weights for CPU-resident convolutions with asymmetric weights);
+            # left out now and then: the same network without the option is the control
+            if e not in opts and rng.random() < 0.85:
+                opts.append(e)
         data = netgen.serialize(net)
         out.update(desc=net.describe(), opts=opts, features=net_features(net), src_model=data)
         res = pipeline.compile_net(data, opts, name=f"n{idx}", introspect=False)
@@ -249,9 +259,38 @@ def order_correspondence(ck, n):
 WRITER_READER_MODULES = {"tflite_writer", "tflite_mapping", "tflite_reader", "reader_util"}
 
 
-def classify(kind, detail, src, opts):
-    """stable key of the known finding that explains this problem, or None. All C11 findings recorded so far have been
-    repaired in /repo (see the `fixed:` lines of known_findings.txt), so every Spec rejection is a plain violation."""
+FSYM_KEY = "force-symmetric-const-per-axis-weights-zero-points-zeroed-on-cpu"
+
+
+def classify(kind, detail, src, opts, out=None):
+    """stable key of the known finding that explains this problem, or None (= plain violation).  Never decides pass/fail.
+
+    One finding is open (repair proposed as /verif_patches/C11-20): with --force-symmetric-int-weights a CONV_2D /
+    DEPTHWISE_CONV_2D that stays on the CPU and whose CONSTANT weights carry per-axis zero points (a vector, not all 0)
+    is written with all weight zero points 0.  The key is given only for exactly that: option present, only the zero
+    points of operand 1 of builtin 3 / 4 differ, the source tensor is constant with more than one zero point, the
+    written vector has the same length and is all zero."""
+    if "--force-symmetric-int-weights" not in opts or kind != "operand-quantisation" or out is None:
+        return None
+    m = re.match(r"operator \d+ \(builtin (3|4)\) operand 1 \(zero-point\) ([0-9a-f]*)$", detail)
+    if not m:
+        return None
+    try:
+        name = bytes.fromhex(m.group(2)).decode()
+    except ValueError:
+        return None
+
+    def find(model):
+        ts = [t for t in model["subgraphs"][0]["tensors"] if (t["name"] or "") == name]
+        return ts[0] if len(ts) == 1 else None
+
+    ts, to = find(src), find(out)
+    if ts is None or to is None or not ts.get("quant") or not to.get("quant"):
+        return None
+    data = src["buffers"][ts["buffer"]] if 0 <= ts["buffer"] < len(src["buffers"]) else None
+    zs, zo = list(ts["quant"]["zero_point"]), list(to["quant"]["zero_point"])
+    if data and len(zs) > 1 and any(zs) and len(zo) == len(zs) and not any(zo):
+        return FSYM_KEY
     return None
 
 
@@ -276,7 +315,7 @@ def replay(ck, path):
         src = fbwalk.parse(data)
         probs = [p.split("|", 1) for p in ans.split(" ", 7)[7].split(" ~ ")]
         for kind, detail in probs:
-            ck.violation(f"{kind}: {detail[:200]}", dict(r, verdict=ans), key=classify(kind, detail, src, r["opts"]))
+            ck.violation(f"{kind}: {detail[:200]}", dict(r, verdict=ans), key=classify(kind, detail, src, r["opts"], fbwalk.parse(res.out_model)))
     ck.finish({"evaluations": 1, "distinct_nontrivial": 1, "rule": "replay"})
 
 
@@ -304,7 +343,11 @@ def main():
 
     # ---- pipeline artefacts ----------------------------------------------------------------------
     n = 7000 if ck.thorough else 480
-    jobs = [(ck.seed, i, PROFILES[i % len(PROFILES)]) for i in range(n)]
+    import sweep
+
+    # the pattern sweep first (harness/sweep.py): every named pattern under the configurations that make it bite
+    jobs = [(ck.seed, i, p) for p, i in sweep.jobs(ck.thorough)]
+    jobs += [(ck.seed, i, PROFILES[i % len(PROFILES)]) for i in range(n)]
     outs = run_jobs(jobs)
     lines, owners = [], []
     rr_lines, rr_owners = [], []
@@ -367,9 +410,10 @@ def main():
             for kind, detail in probs:
                 ck.count("problem_" + kind)
             src = fbwalk.parse(o["src_model"])
+            outm = fbwalk.parse(o["out_model"]) if o.get("out_model") else None
             groups = {}
             for kind, detail in probs:
-                groups.setdefault(classify(kind, detail, src, o["opts"]), []).append((kind, detail))
+                groups.setdefault(classify(kind, detail, src, o["opts"], outm), []).append((kind, detail))
             for key, ps in groups.items():
                 if key is not None:
                     ck.count("known_" + key)
@@ -384,7 +428,9 @@ def main():
         ck.sample({"network": o["desc"], "opts": o["opts"], "features": o["features"], "verdict": ans[:200]})
     wanted = ["multiple_outputs", "duplicated_operand", "dynamic_weights", "third_party_custom", "custom_options_nonempty",
               "float_detour", "float_tensors", "unsupported_rank_gt4", "unsupported_batch_gt1", "multiple_inputs",
-              "omitted_operand_before_real_operand", "quantisation_min_max", "custom_options_absent"]
+              "omitted_operand_before_real_operand", "quantisation_min_max", "custom_options_absent", "force_symmetric_case",
+              "quantisation_extremes", "rejected_RESHAPE", "rejected_CONV_2D_GROUPS", "reshape_cpu_big", "reshape_cpu_big_minus1",
+              "reshape_cpu_dyn_shape"]
     missing = [w for w in wanted if not ck.counters.get("feature_" + w)]
     ck.finish({
         "programs": programs,
